@@ -20,6 +20,7 @@ structure St where
   returnVal : Option CellId
   faults : Nat                 -- ghost: number of runtime errors raised so far
   faultOut : Nat := 0          -- ghost: number of output chunks when the last runtime error was raised
+  maxDepth : Nat := 0          -- ghost: the largest number of frames ever open at once
   deriving Inhabited
 
 /-- the output written so far -/
@@ -90,7 +91,8 @@ def callDepthLimit : Nat := 4096
 /-- `pushFrame(name)`: the new frame's depth is the current number of frames -/
 def pushFrame (name : Bytes) : EM (Except String Unit) := fun s =>
   if s.frames.length > callDepthLimit then .ok (.error "call depth limit exceeded") s
-  else .ok (.ok ()) { s with frames := ⟨name, []⟩ :: s.frames }
+  else .ok (.ok ()) { s with frames := ⟨name, []⟩ :: s.frames,
+                             maxDepth := max s.maxDepth (s.frames.length + 1) }
 
 /-- restore the frame stack saved before a `pushFrame` (every exit path of a call or match) -/
 def restoreFrames (fr : List Frame) : EM Unit := fun s => .ok () { s with frames := fr }
